@@ -25,35 +25,58 @@ THEOREMS = {
     'C07_missing_required': 'pipeline: a FieldIsMissing error names the field and the key of the first entry (in formatting order) whose template fails, all earlier entries having been formatted',
     'C07_terminated': 'a template built from sentences (endsInSentence, decidable syntactic condition) evaluates to a text that is empty or ends with . ? or !; lifted to every formatted entry',
     'C07_protected_case': 'from_latex puts brace groups under Protected; lower/upper/capfirst/capitalize/dashify, field apply_funcs and sentence post-processing leave the protected atoms exactly as they are',
-    'C07_field_coverage': 'for ALL templates: every field node on the successful evaluation path has a value whose text occurs contiguously in the output (up to case under capfirst/capitalize sentences); the value text is the field string without braces (none), equal up to case (lower/capitalize), equal up to dashes (dashify); lifted to every formatted entry',
+    'C07_field_coverage': 'for ALL templates: every field node on the successful evaluation path has a value whose text occurs contiguously in the output (up to case under capfirst/capitalize sentences); the value text is the field string as the codec decodes it, without braces (none), equal up to case (lower/capitalize), equal up to dashes (dashify); lifted to every formatted entry',
+    'C07_name_coverage': 'for ALL templates (in particular all name-style templates): every name word on the evaluated path (literal child of a name_part, reached through the name templates of a names node) is shown contiguously in the output, as the word or as word.abbreviate() when the name_part abbreviates; lifted to every formatted entry',
+    'C07_abbreviate': 'abbreviate(): the pieces (cut at white space / hyphens outside Protected, separators kept) spell the text; the result spells, piece by piece, first character + period for an alphabetic piece (str.isalpha of the interpreter) and the piece itself otherwise',
+    'C07_unicode_keys': 'person keys of author_year_title are normalised with str.lower (idempotent; persons differing in ASCII letter case only get the same key); _strip_nonalnum yields ASCII letters and digits only (own ones and the base letters of accented characters, table regenerated from unicodedata)',
+    'C07_alpha_base_label': 'alpha base labels (format_label): end with year[-2:] when the entry has a year; the part made from persons (format_lab_names) consists of ASCII letters, digits and + only; for ordinary entry types with authors the base label is format_lab_names(authors) + year suffix',
 }
 RULE = ('databases over all seventeen entry types, each entry with a random subset of the fields its template reads (values with braces, '
-        'hyphens, punctuation; persons in all name forms; cross-references), every citation list shape (subset / permutation / "*" / '
-        'unknown key), formatting style x label style x sorting style x name style x abbreviate_names; the templates and name templates '
-        'of the live style objects are serialised per entry and evaluated by the Lean template evaluator; non-trivial = at least two '
-        'formatted entries; distinct by case JSON')
+        'hyphen runs, TeX: -- --- \\& {\\"o} ~ quotes, letters outside ASCII; persons in all name forms incl. lineage, hyphens, TeX accents, '
+        'non-ASCII; cross-references), every citation list shape (subset / permutation / "*" / unknown key), EVERY combination formatting '
+        'style x label style x sorting style x name style x abbreviate_names on one database plus random combinations; the expected sorting / '
+        'labels / name style / abbreviation are derived from the CASE (never from the live style object); every case is also run through '
+        'PybtexEngine().format_from_string with the configuration as keyword arguments and each of the four backends; the templates of the '
+        'live style object and the name templates of the configured name style are serialised per entry and evaluated by the Lean template '
+        'evaluator, the result is rendered by the Lean backend models; non-trivial = at least two formatted entries; distinct by case JSON')
 TRUSTED = ['the templates get_<type>_template(entry) and the name-style templates are INPUTS (serialised Node trees of the live style '
            'objects), like the .bst files of the BibTeX engine; the template evaluator, rich text, sorting and label styles are modelled',
-           'latexcodec decode is the identity on the value fragment generated (no backslash, %, ~, --, quotes pairs)',
-           'apply_func closures are recognised by probing (dashify / lower / capitalize); an unrecognised closure stops the translator loudly']
-ASSUMPTIONS = ['ASCII letters; known entry types only']
+           'latexcodec decode is DATA: the decoded form of every field value (computed by the real codec) travels with the request, as in C09',
+           'apply_func closures are recognised by probing (dashify / lower / capitalize); an unrecognised closure stops the translator loudly',
+           'the backend models of C09 (Model/Backends.lean; latexcodec encode = probed ASCII table + pass-through)',
+           'unicodedata (NFD, combining) and str.lower / str.isalpha of the running interpreter: regenerated tables (Gen/StripAccents, Gen/UnicodeCase, Gen/Unicode)']
+ASSUMPTIONS = ['known entry types only (an unknown type raises AttributeError in format_entry: outside the property\'s "seventeen supported entry types")',
+               'letters outside ASCII: everywhere in persons (sort keys, alpha labels, initials follow the interpreter\'s Unicode tables); in other '
+               'field values only where the rich-text model of C08 (ASCII case mapping) applies no case change to them: not as the first character '
+               'of a value, upper-case ones only inside braces; no U+0130 / U+03A3 (str.lower is not character-wise there)',
+               'parents follow their children in the file (C05-filtered-parent-before-child) so that the filtered read of PybtexEngine sees them']
 
 TYPES = ['article', 'book', 'booklet', 'dataset', 'inbook', 'incollection', 'inproceedings', 'manual', 'mastersthesis', 'misc', 'online',
          'patent', 'phdthesis', 'proceedings', 'software', 'techreport', 'unpublished']
 FIELDS = ['title', 'year', 'month', 'journal', 'volume', 'number', 'pages', 'note', 'publisher', 'address', 'edition', 'series', 'booktitle',
           'chapter', 'howpublished', 'organization', 'school', 'institution', 'type', 'url', 'urldate', 'doi', 'eprint', 'pubmed', 'isbn', 'key']
+# values with TeX: the codec turns -- / --- into dash characters, \& into &, {\"o} into {ö}, ~ into a no-break space, `` '' into quotes;
+# non-ASCII letters of a title are lower case and not in first position (the rich-text model of C08 maps the case of ASCII letters only)
 VALUES = {
-    'title': ['The {TeX}book', 'a study of {B}races: and colons', 'UPPER lower Mixed', 'plain title', 'Ends with period.', 'What now?', '{Whole Protected}'],
-    'year': ['1984', '2001', '1990', '99'],
+    'title': ['The {TeX}book', 'a study of {B}races: and colons', 'UPPER lower Mixed', 'plain title', 'Ends with period.', 'What now?', '{Whole Protected}',
+              'Gr{\\"o}bner bases --- a {\\"U}bersicht', "R\\'esum\\'e of the caf\\'e~problem", "On ``quoted'' words \\& more", 'naïve sets and their {É}tudes',
+              'Research \\& {D}evelopment: 100\\% more', 'The {$O(n^2)$} bound -- revisited'],
+    'year': ['1984', '2001', '1990', '99', '1984--85'],
     'month': ['January', 'feb', '7'],
-    'pages': ['1-10', '5', '100-120', '11-20, 30'],
-    'volume': ['3', 'IV', '12'], 'number': ['2', '7b'], 'chapter': ['8', '666'], 'edition': ['Second', '3rd'],
-    'url': ['http://example.org/a_b', 'https://x.y/z'], 'urldate': ['2020-01-02'], 'doi': ['10.1000/xyz'], 'eprint': ['1234.5678'], 'pubmed': ['12345'],
-    'isbn': ['3257227892'], 'key': ['Knu', 'ab', 'K'],
+    'pages': ['1-10', '5', '100-120', '11-20, 30', '1--10', '3---9', '12-{}-14', '7{-}9', 'A-1----A-5', '11--20, 30-{}-{}-40', 'x-{y}-z', '-', '1~--~2'],
+    'volume': ['3', 'IV', '12'], 'number': ['2', '7b', '3--4'], 'chapter': ['8', '666'], 'edition': ['Second', '3rd'],
+    'url': ['http://example.org/a_b', 'https://x.y/z', 'http://e.org/~u/a--b?x=1\\&y=2'], 'urldate': ['2020-01-02'], 'doi': ['10.1000/xyz', '10.1/a--b'],
+    'eprint': ['1234.5678'], 'pubmed': ['12345'], 'isbn': ['3257227892', '0-201-13448-9'], 'key': ['Knu', 'ab', 'K', 'Åb'],
 }
-GENERIC = ['Some Name', 'the lower case one', 'A {B} c', 'Addison-Wesley', 'X', 'New York', 'Univ. of Somewhere']
+GENERIC = ['Some Name', 'the lower case one', 'A {B} c', 'Addison-Wesley', 'X', 'New York', 'Univ. of Somewhere',
+           'AT\\&T Press', 'K{\\"o}ln~University', 'Stra{\\ss}e 5 -- annex', 'Presses de l’Université', 'Springer-Verlag, Berlin--Heidelberg',
+           'The Łódź Society', "O'Reilly \\& Sons", 'Société {\\emph{x}}']
 PERSONS = ['Donald E. Knuth', 'Knuth, Donald E.', 'Leslie Lamport', 'Jean de La Fontaine', 'von Beethoven, Jr, Ludwig', '{Barnes and Noble}',
-           'A. B. Cee', 'Ab Cd', 'X', 'others', 'Smith', 'de la Vall{e}e Poussin, Charles Louis Xavier Joseph']
+           'A. B. Cee', 'Ab Cd', 'X', 'others', 'Smith', 'de la Vall{e}e Poussin, Charles Louis Xavier Joseph',
+           # lineage parts, hyphenated and protected first names, TeX accents, letters outside ASCII (sort keys, alpha labels, initials)
+           'King, III, Martin Luther', 'Smith, Jr., John Q.', 'Jean-Paul Sartre', '{Jean Paul} Marat', 'Kurt G{\\"o}del', 'Paul Erd{\\H{o}}s',
+           "Charles de la Vall{\\'e}e Poussin", 'Anders Jonas Ångström', 'Éric Éz', 'éa, Zoë', 'Łukasz Ørsted-Ñandú', 'Çelik, Ömer',
+           'van der Waerden, Bartel L.', 'Иван Петров', 'Ōe Kenzaburō', 'd’Alembert, Jean le Rond', 'Strauß, Jr, Johann']
 STYLES = ['unsrt', 'plain', 'alpha', 'unsrtalpha']
 
 
@@ -172,6 +195,44 @@ def tmpl(node):
 
 
 # ------------------------------------------------------------------------------------------------
+# configuration: what the CASE asks for (never read back from the live style object)
+
+# the four Pythonic styles: unsrt = citation order + number labels, plain = sorted + number labels, alpha = sorted + alpha labels,
+# unsrtalpha = citation order + alpha labels; names are "First von Last, Jr" (plain) unless configured otherwise
+STYLE_DEFAULTS = {'unsrt': ('number', 'none'), 'plain': ('number', 'author_year_title'),
+                  'alpha': ('alpha', 'author_year_title'), 'unsrtalpha': ('alpha', 'none')}
+BACKENDS = ['text', 'html', 'latex', 'markdown']
+
+
+# Monitored invariant (C07_terminated needs `endsInSentence template`, a decidable syntactic condition the driver evaluates on every
+# serialised live template): the templates of these entry types satisfy it for every entry -- for book / inbook whenever the entry has
+# an editor (without one the template ends in a bare names node that raises or is skipped) -- as recorded when the machinery was
+# built (corpus/C07/ends_in_sentence.json holds the per-entry record for every type).  incollection / inproceedings end in
+# words['In', sentence[...]] and never satisfy it (finding C07-blank-field-in-unterminated).  A live template that used to satisfy the
+# condition and no longer does shows up as a disagreement between this expectation and the driver's answer.
+ENDS_ALWAYS = {'article', 'booklet', 'dataset', 'manual', 'mastersthesis', 'misc', 'online', 'patent', 'phdthesis', 'proceedings',
+               'software', 'techreport', 'unpublished'}
+ENDS_WITH_EDITOR = {'book', 'inbook'}
+
+
+def expected_ends(case):
+    """keys of the entries whose live template is expected to satisfy endsInSentence"""
+    keys = set(k for k, v in case.get('expect_ends', {}).items() if v)
+    seen = set()
+    for e in case['entries']:
+        if e['key'].lower() in seen:
+            continue
+        seen.add(e['key'].lower())
+        if e['type'] in ENDS_ALWAYS or (e['type'] in ENDS_WITH_EDITOR and any(n.lower() == 'editor' for n, _v in e['fields'])):
+            keys.add(e['key'])
+    return sorted(keys)
+
+
+def configured(case):
+    lab, srt = STYLE_DEFAULTS[case['style']]
+    return {'labels': case.get('label_style') or lab, 'sorting': case.get('sorting_style') or srt,
+            'names': case.get('name_style') or 'plain', 'abbr': bool(case.get('abbreviate_names'))}
+
 
 _EP_CACHE = {}
 
@@ -215,9 +276,45 @@ def parse_db(case):
         return parse_string(bib_text(case), 'bibtex')
 
 
-def impl(case):
+def _error_of(e):
+    cls = type(e).__name__
+    if cls == 'FieldIsMissing':
+        m = re.match(r'missing (.*) in (.*)$', e.args[0], re.S)
+        return ['FieldIsMissing', m.group(1), m.group(2)]
+    return [cls]
+
+
+def engine_backends(case):
+    """the backends through which the PybtexEngine path is run for this case: all four for a one-entry database, one of them
+    (rotating with the content of the case) for larger ones -- every backend sees a quarter of the larger databases"""
+    if len(case['entries']) <= 1:
+        return BACKENDS
+    import json
+    import zlib
+    return [BACKENDS[zlib.crc32(json.dumps(case, sort_keys=True).encode('utf-8')) % 4]]
+
+
+def _engine_run(case, backend):
+    """the second way into the same machinery: PybtexEngine().format_from_string with the configuration as keyword arguments"""
+    import pybtex
     from pybtex import errors
     from pybtex.exceptions import PybtexError
+    kw = {k: case[k] for k in ('label_style', 'name_style', 'sorting_style', 'abbreviate_names') if k in case}
+    try:
+        with errors.capture():
+            return pybtex.PybtexEngine().format_from_string(bib_text(case), style=case['style'], citations=list(case['citations']), bib_format='bibtex',
+                                                            output_backend=backend, min_crossrefs=case['min_crossrefs'], **kw)
+    except PybtexError as e:
+        return {'error': _error_of(e)}
+    except Exception as e:  # noqa
+        return {'error': ['INTERNAL'], 'detail': '%s: %s' % (type(e).__name__, e)}
+
+
+def impl(case):
+    import io
+    from pybtex import errors
+    from pybtex.exceptions import PybtexError
+    from pybtex.plugin import find_plugin
     try:
         db = parse_db(case)
         style = make_style(case)
@@ -225,22 +322,29 @@ def impl(case):
             fb = style.format_bibliography(db, list(case['citations']))
             entries = [[e.key, e.label, c08.dump(e.text)] for e in fb]
         out = {'entries': entries, 'reports': [_report(e) for e in captured]}
-        # the four backends must be able to render every entry (details are C09's business)
-        plain = []
-        for e in fb:
-            plain.append(e.text.render_as('text'))
-            for b in ('html', 'latex', 'markdown'):
-                e.text.render_as(b)
-        out['plain'] = plain
-        return out
+        # every entry through each of the four backends
+        out['render'] = [{b: e.text.render_as(b) for b in BACKENDS} for e in fb]
+        out['plain'] = [r['text'] for r in out['render']]
+        docs = {}
+        for b in BACKENDS:
+            s = io.StringIO()
+            find_plugin('pybtex.backends', b)(None).write_to_stream(fb, s)
+            docs[b] = s.getvalue()
     except PybtexError as e:
-        cls = type(e).__name__
-        if cls == 'FieldIsMissing':
-            m = re.match(r'missing (.*) in (.*)$', e.args[0])
-            return {'error': ['FieldIsMissing', m.group(1), m.group(2)]}
-        return {'error': [cls]}
+        out = {'error': _error_of(e)}
+        docs = {b: out for b in BACKENDS}
     except Exception as e:  # noqa
         return {'error': ['INTERNAL'], 'detail': '%s: %s' % (type(e).__name__, e)}
+    # the same bibliography through PybtexEngine.format_from_string(..., sorting_style=, label_style=, name_style=, abbreviate_names=):
+    # recorded only where it differs from the document the backend writes for the entries above
+    diff = {}
+    for b in engine_backends(case):
+        got = _engine_run(case, b)
+        if got != docs[b]:
+            diff[b] = [got if isinstance(got, dict) else got[:4000], docs[b] if isinstance(docs[b], dict) else docs[b][:4000]]
+    out['engine_diff'] = diff
+    out['ends'] = sorted([k, True] for k in expected_ends(case))
+    return out
 
 
 def _report(e):
@@ -262,15 +366,68 @@ def to_request(case):
     import json
     k = json.dumps(case, sort_keys=True)
     if k not in _REQ_CACHE:
-        if len(_REQ_CACHE) > 50000:
+        if _PENDING:
+            # first request after gen_cases: compute the requests of all generated cases on all cores (see _warm_requests)
+            pending = list(_PENDING)
+            del _PENDING[:]
+            _warm_requests(pending)
+            if k in _REQ_CACHE:
+                return _REQ_CACHE[k]
+        if len(_REQ_CACHE) > 80000:
             _REQ_CACHE.clear()
         _REQ_CACHE[k] = _to_request(case)
     return _REQ_CACHE[k]
 
 
+_PENDING = []
+_DEC_CACHE = {}
+
+
+def _req_job(case):
+    return _to_request(case)
+
+
+def _warm_requests(cases):
+    """to_request is a pure function of the case but costs ~15 ms (parse, style object, template serialisation, codec) and check.py
+    calls it in the main process: the requests of all generated cases are computed on all cores the first time one is asked for (after
+    the implementation runs, so that the worker processes of check.py are forked from a small parent) and parked in the cache"""
+    import gc
+    import json
+    import multiprocessing
+    import os
+    jobs = int(os.environ.get('VERIF_JOBS', '16'))
+    if jobs <= 1 or len(cases) < 500:
+        return
+    gc.collect()
+    gc.freeze()       # the forked workers' collector must not touch (and so copy) the parent's heap
+    try:
+        with multiprocessing.get_context('fork').Pool(jobs) as pool:
+            reqs = pool.map(_req_job, cases, chunksize=max(1, len(cases) // (jobs * 8)))
+    except Exception:      # no pool: the requests are computed one by one when asked for
+        return
+    finally:
+        gc.unfreeze()
+    for c, r in zip(cases, reqs):
+        _REQ_CACHE[json.dumps(c, sort_keys=True)] = r
+
+
+def decode(v):
+    """codecs.decode(v, 'ulatex'): what Text.from_latex applies to a field value / name word before parsing the braces"""
+    d = _DEC_CACHE.get(v)
+    if d is None:
+        import codecs
+        import latexcodec  # noqa: F401
+        d = _DEC_CACHE[v] = codecs.decode(v, 'ulatex')
+    return d
+
+
 def _to_request(case):
+    from pybtex.plugin import find_plugin
     db = parse_db(case)
     style = make_style(case)
+    cfg = configured(case)
+    # the name templates come from the name style the CASE configures (a fresh plug-in object), not from the style object
+    name_style = find_plugin('pybtex.style.names', cfg['names'])()
     entries, _pre = c01.canon_db(db)
     items = []
     for key, e in db.entries.items():
@@ -278,79 +435,183 @@ def _to_request(case):
         if get is None:
             continue
         t = tmpl(get(e))
-        pts = [[role, [tmpl(style.format_name(p, style.abbreviate_names)) for p in ps]] for role, ps in e.persons.items()]
+        pts = [[role, [tmpl(name_style.format(p, cfg['abbr'])) for p in ps]] for role, ps in e.persons.items()]
         items.append({'key': key, 'template': t, 'person_templates': pts})
-    sorting = type(style.sorting_style).__module__.rsplit('.', 1)[-1]
-    labels = type(style.label_style).__module__.rsplit('.', 1)[-1]
+    dec = {}
+    for e in entries:
+        for _k, v in e['fields']:
+            d = decode(v)
+            if d != v:
+                dec[v] = d
+    from pybtex import errors
+    with errors.capture():
+        resolved = [k for k in db.add_extra_citations(list(case['citations']), case['min_crossrefs']) if k in db.entries]
     return {'op': 'pystyle', 'entries': entries, 'items': items, 'citations': case['citations'], 'min_crossrefs': case['min_crossrefs'],
-            'sorting': sorting, 'labels': labels}
+            'sorting': cfg['sorting'], 'labels': cfg['labels'], 'decode': sorted(dec.items()),
+            # for the oracle only (the driver ignores it): the resolved citations according to the database API (C05)
+            'resolved': resolved}
+
+
+# backends whose per-entry rendering is compared with the model (Model/Backends.lean)
+MODEL_BACKENDS = ['text', 'html', 'latex', 'markdown']
 
 
 def compare_view(io):
     if 'error' in io:
-        return {'error': io['error']}
-    return {'entries': io['entries'], 'reports': io['reports']}
+        v = {'error': io['error']}
+    else:
+        v = {'entries': io['entries'], 'reports': io['reports'], 'render': [{b: r[b] for b in MODEL_BACKENDS} for r in io['render']]}
+    v['ends'] = io.get('ends')
+    return v
 
 
 def model_out(case, reply):
     o = reply['out']
     if 'error' in o:
         e = o['error']
-        return {'error': e if e[0] == 'FieldIsMissing' else [e[0]]}
-    return {'entries': o['entries'], 'reports': o['reports']}
+        v = {'error': e if e[0] == 'FieldIsMissing' else [e[0]]}
+    else:
+        v = {'entries': o['entries'], 'reports': o['reports'], 'render': [{b: r[b] for b in MODEL_BACKENDS} for r in o['render']]}
+    ends = dict(reply['spec']['ends_in_sentence'])
+    v['ends'] = sorted([k, bool(ends.get(k))] for k in expected_ends(case))
+    return v
 
 
 # ------------------------------------------------------------------------------------------------
 # oracle
 
-def _presence2(t, have_field, have_role):
-    """(printed field names, output is non-empty) of a template by presence only; raises KeyError(field) like
-    FieldIsMissing.  Fields inside a first_of alternative are not added to the expectations (which alternative
-    prints is decided by emptiness, which is tracked)."""
+def _strip_braces(s):
+    return s.replace('{', '').replace('}', '')
+
+
+def _text_len(v, raw):
+    """number of characters Text.from_latex(v) has (braces are markup); a raw field is the string itself"""
+    return len(v) if raw else len(_strip_braces(decode(v)))
+
+
+class _Missing(Exception):
+    pass
+
+
+def _walk(t, field_value, persons_of):
+    """Which field nodes and names nodes contribute to the output of a template for an entry, by presence and emptiness of the
+    values only (the documented meaning of the template language: optional[...] vanishes when a field in it is missing, first_of
+    takes the first non-empty alternative, join / sentence / words skip empty children).  Returns (fields, roles, non_empty):
+    fields = [(name, fn, raw)], roles = [role]; raises _Missing(name) for the first field or role that is required and absent."""
     k = t['t']
     if k == 'lit':
         r = t['r']
-        return set(), (len(r) > 0 if isinstance(r, str) else (True if 'y' in r else bool(r.get('p'))))
+        return [], [], (len(r) > 0 if isinstance(r, str) else (True if 'y' in r else _tree_len(r) > 0))
     if k == 'field':
-        if not have_field(t['name']):
-            raise KeyError(t['name'])
-        return (set() if t['raw'] else {t['name']}), True
+        v = field_value(t['name'])
+        if v is None:
+            raise _Missing(t['name'])
+        return [(t['name'], t['fn'], t['raw'])], [], _text_len(v, t['raw']) > 0
     if k == 'names':
-        if not have_role(t['role']):
-            raise KeyError(t['role'])
-        return set(), True
-    if k == 'optional':
-        try:
-            s, ne = set(), False
-            for c in t['c']:
-                cs, cne = _presence2(c, have_field, have_role)
-                s |= cs
-                ne = ne or cne
-            return s, ne
-        except KeyError:
-            return set(), False
+        if not persons_of(t['role']):
+            raise _Missing(t['role'])
+        return [], [t['role']], True
     if k == 'first_of':
         for c in t['c']:
-            _cs, cne = _presence2(c, have_field, have_role)   # a raise propagates, as in the evaluator
-            if cne:
-                return set(), True
-        return set(), False
-    s, ne = set(), False
-    for c in t.get('c', []):
-        cs, cne = _presence2(c, have_field, have_role)
-        s |= cs
-        ne = ne or cne
-    if k == 'href':
-        _presence2(t['url'], have_field, have_role)
-    return s, ne
+            got = _walk(c, field_value, persons_of)    # a missing field propagates, as in the evaluator
+            if got[2]:
+                return got
+        return [], [], False
+    try:
+        fs, rs, ne = [], [], False
+        for c in t.get('c', []):
+            f, r, n = _walk(c, field_value, persons_of)
+            fs += f
+            rs += r
+            ne = ne or n
+        if k == 'href':
+            _walk(t['url'], field_value, persons_of)    # the link target: evaluated (may be missing), not printed
+        return fs, rs, ne
+    except _Missing:
+        if k == 'optional':
+            return [], [], False
+        raise
 
 
-def _presence(t, have_field, have_role):
-    return _presence2(t, have_field, have_role)[0]
+def _tree_len(r):
+    if isinstance(r, str):
+        return len(r)
+    if 'y' in r:
+        return 1
+    return sum(_tree_len(p) for p in r.get('p', []))
 
 
-def _strip_braces(s):
-    return s.replace('{', '').replace('}', '')
+def _atoms(r, prot=False):
+    """flatten a dumped rich text: ('c', char, protected) / ('y', symbol name)"""
+    if isinstance(r, str):
+        return [('c', ch, prot) for ch in r]
+    if 'y' in r:
+        return [('y', r['y'])]
+    out = []
+    for p in r.get('p', []):
+        out += _atoms(p, prot or r.get('k') == 'prot')
+    return out
+
+
+def _dash_atoms(decoded):
+    """documented dash transformation of a page range: every maximal run of hyphens outside braces is ONE en dash; everything
+    else (hyphens inside braces too) is kept"""
+    out, depth = [], 0
+    for ch in decoded:
+        if ch == '{':
+            depth += 1
+        elif ch == '}':
+            depth -= 1
+        elif ch == '-' and depth == 0:
+            if not out or out[-1] != ('y', 'ndash'):
+                out.append(('y', 'ndash'))
+        else:
+            out.append(('c', ch))
+    return out
+
+
+def _contains(hay, needle):
+    n = len(needle)
+    return n == 0 or any(hay[i:i + n] == needle for i in range(len(hay) - n + 1))
+
+
+def _norm(s):
+    """up to white space (a tie is a space), runs of hyphens and letter case"""
+    return re.sub(r'-+', '-', re.sub(r'[\s\xa0]+', ' ', s)).lower()
+
+
+def _word_text(w):
+    """the text of a name word: decoded, braces are markup"""
+    return _strip_braces(decode(w))
+
+
+def _abbr_word(w):
+    """a first name abbreviated: split at white space / hyphens outside braces, a purely alphabetic piece becomes initial + '.'"""
+    pieces, cur, depth = [], '', 0
+    for ch in decode(w):
+        if ch == '{':
+            depth += 1
+        elif ch == '}':
+            depth -= 1
+        elif depth == 0 and (ch.isspace() or ch == '-'):
+            pieces += [cur, ch]
+            cur = ''
+        else:
+            cur += ch
+    pieces.append(cur)
+    return ''.join((p[0] + '.') if (i % 2 == 0 and p.isalpha()) else p for i, p in enumerate(pieces))
+
+
+def _person_text(p, cfg):
+    """the configured name style: plain = First von Last, Jr; lastfirst = von Last, Jr, First (first names abbreviated on request)"""
+    first = [(_abbr_word(w) if cfg['abbr'] else _word_text(w)) for w in p[0] + p[1]]
+    von_last = ' '.join(_word_text(w) for w in p[2] + p[3])
+    jr = ' '.join(_word_text(w) for w in p[4])
+    if cfg['names'] == 'plain':
+        s = ' '.join(x for x in (' '.join(first), von_last) if x)
+        return s + (', ' + jr if jr else '')
+    s = von_last + (', ' + jr if jr else '')
+    return s + (', ' + ' '.join(first) if first else '')
 
 
 def _sort_key(e):
@@ -372,36 +633,47 @@ def oracle(case, io, reply):
     fails = []
     if 'error' in io and io['error'][0] == 'INTERNAL':
         return ['no_internal: %s' % io.get('detail')]
-    db = parse_db(case)
-    entries, _ = c01.canon_db(db)
-    by_key = {e['key'].lower(): e for e in entries}
-    from pybtex import errors
-    with errors.capture():
-        resolved = [k for k in db.add_extra_citations(list(case['citations']), case['min_crossrefs']) if k in db.entries]
+    cfg = configured(case)
     req = to_request(case)
+    entries = req['entries']
+    by_key = {e['key'].lower(): e for e in entries}
+    resolved = req['resolved']
     tmpls = {it['key'].lower(): it['template'] for it in req['items']}
+    spec = reply.get('spec') or {}
 
     def lookups(e):
-        def have_field(name, e=e, seen=None):
-            seen = seen or set()
-            cur = e
+        def field_value(name, e=e):
+            cur, seen = e, set()
             while cur is not None and cur['key'].lower() not in seen:
                 seen.add(cur['key'].lower())
                 fs = {k.lower(): v for k, v in cur['fields']}
-                roles = {r.lower() for r, _ in cur['persons']}
-                if name.lower() in fs or name.lower() in roles:
-                    return True
+                if name.lower() in fs:
+                    return fs[name.lower()]
+                if name.lower() in {r.lower() for r, _ in cur['persons']}:
+                    return 'x'          # a person role read as a field (never generated): present
                 cur = by_key.get(fs['crossref'].lower()) if 'crossref' in fs else None
-            return False
+            return None
 
-        def have_role(role, e=e):
-            return role.lower() in {r.lower() for r, _ in e['persons']}
-        return have_field, have_role
+        def persons_of(role, e=e):
+            for r, ps in e['persons']:
+                if r.lower() == role.lower():
+                    return ps
+            return None
+        return field_value, persons_of
 
+    # the PybtexEngine path must give the same bibliography (same keys, labels, texts through the same backend; same error)
+    for b, (got, want) in sorted((io.get('engine_diff') or {}).items()):
+        if isinstance(got, str) and isinstance(want, str):
+            gl, wl = got.split('\n'), want.split('\n')
+            i = next((i for i, (x, y) in enumerate(zip(gl, wl)) if x != y), min(len(gl), len(wl)))
+            got, want = '... ' + '\n'.join(gl[i:i + 3])[:300], '... ' + '\n'.join(wl[i:i + 3])[:300]
+        fails.append('engine_path: PybtexEngine().format_from_string(..., output_backend=%r, %s) writes %r where the style object configured '
+                     'the same way gives %r' % (b, ', '.join('%s=%r' % (k, case[k]) for k in ('label_style', 'name_style', 'sorting_style',
+                                                                                              'abbreviate_names') if k in case), got, want))
+        break
     # which entry (in the order the style formats them) first lacks a required field?
-    style = make_style(case)
     order = [by_key[k.lower()] for k in resolved]
-    if req['sorting'] == 'author_year_title':
+    if cfg['sorting'] == 'author_year_title':
         order = sorted(order, key=_sort_key)
     first_missing = None
     for e in order:
@@ -409,8 +681,8 @@ def oracle(case, io, reply):
         if t is None:
             continue
         try:
-            _presence(t, *lookups(e))
-        except KeyError as k:
+            _walk(t, *lookups(e))
+        except _Missing as k:
             first_missing = (k.args[0], e['key'])
             break
     if 'error' in io:
@@ -428,51 +700,78 @@ def oracle(case, io, reply):
     if sorted(k.lower() for k in keys) != sorted(k.lower() for k in resolved):
         fails.append('one_per_citation: formatted %r, resolved citations %r' % (keys, resolved))
         return fails
-    if req['sorting'] == 'none':
+    if cfg['sorting'] == 'none':
         if [k.lower() for k in keys] != [k.lower() for k in resolved]:
-            fails.append('order: sorting style none emitted %r, citation order is %r' % (keys, resolved))
+            fails.append('order: sorting style none (configured) emitted %r, citation order is %r' % (keys, resolved))
     else:
         want = [e['key'] for e in order]
         if [k.lower() for k in keys] != [k.lower() for k in want]:
-            fails.append('order: author_year_title emitted %r, stable sort by (author, year, title) gives %r' % (keys, want))
+            fails.append('order: author_year_title (configured) emitted %r, stable sort by (author, year, title) gives %r' % (keys, want))
     labels = [g[1] for g in got]
-    if req['labels'] == 'number':
+    if cfg['labels'] == 'number':
         if labels != [str(i + 1) for i in range(len(got))]:
-            fails.append('labels: number labels are %r' % labels)
-    elif len(set(labels)) != len(labels):
-        dup = sorted({l for l in labels if labels.count(l) > 1})
-        # the recorded finding has a precise shape: a duplicated label L = B + letter next to another label B + other letter
-        # (B was disambiguated with suffix letters and one of the results equals a label that occurs on its own)
-        collision = all(l[-1:].islower() and any(m != l and m[:-1] == l[:-1] and m[-1:].islower() for m in labels) for l in dup)
-        fails.append('labels: alpha labels are not pairwise distinct: %r (duplicates %r)%s' % (
-            labels, dup, ' [suffixed label equals another label]' if collision else ''))
+            fails.append('labels: number labels (configured) are %r' % labels)
+    else:
+        # BibTeX alpha labels: the base label of alpha.bst (reference value: the Lean model's format_label) plus at most one suffix letter
+        base = dict((k.lower(), v) for k, v in (spec.get('alpha_base') or []))
+        for k, l in zip(keys, labels):
+            b = base.get(k.lower())
+            if b is not None and not (l == b or (len(l) == len(b) + 1 and l.startswith(b) and 'a' <= l[-1] <= 'z')):
+                fails.append('labels: alpha label of %r is %r, the BibTeX alpha label is %r (plus a suffix letter when it repeats)' % (k, l, b))
+                break
+        if len(set(labels)) != len(labels):
+            dup = sorted({l for l in labels if labels.count(l) > 1})
+            # the recorded finding has a precise shape: a duplicated label L = B + letter next to another label B + other letter
+            # (B was disambiguated with suffix letters and one of the results equals a label that occurs on its own)
+            collision = all(l[-1:].islower() and any(m != l and m[:-1] == l[:-1] and m[-1:].islower() for m in labels) for l in dup)
+            fails.append('labels: alpha labels are not pairwise distinct: %r (duplicates %r)%s' % (
+                labels, dup, ' [suffixed label equals another label]' if collision else ''))
     for g, plain in zip(got, io['plain']):
         e = by_key[g[0].lower()]
         t = tmpls.get(e['key'].lower())
         if plain and plain.rstrip()[-1:] not in '.?!':
             fails.append('terminated: entry %r renders as %r' % (g[0], plain[-40:]))
+        field_value, persons_of = lookups(e)
         try:
-            printed = _presence(t, *lookups(e))
-        except KeyError:
+            printed, roles, _ne = _walk(t, field_value, persons_of)
+        except _Missing:
             continue
-        low = _strip_braces(plain).lower()
-        for f in printed:
-            cur, val, seen = e, None, set()
-            while cur is not None and cur['key'].lower() not in seen:
-                seen.add(cur['key'].lower())
-                fs = {k.lower(): v for k, v in cur['fields']}
-                if f.lower() in fs:
-                    val = fs[f.lower()]
-                    break
-                cur = by_key.get(fs['crossref'].lower()) if 'crossref' in fs else None
-            if val is None:
-                continue      # a person role seen as a field: not generated
-            want = re.sub(r'-+', '-', _strip_braces(c01_norm(val))).lower()
-            if want and want not in re.sub(r'-+', '-', low):
-                fails.append('field_coverage: field %s = %r of entry %r is printed by the template but missing from %r' % (f, val, g[0], plain))
-            for m in re.finditer(r'\{([^{}]+)\}', val):
-                if f == 'title' and m.group(1) not in plain:
-                    fails.append('protected_case: %r of the title of %r does not keep its case in %r' % (m.group(1), g[0], plain))
+        low = _norm(plain)
+        atoms = None
+        for f, fn, raw in printed:
+            val = field_value(f)
+            if raw:
+                if val not in plain:
+                    fails.append('field_coverage: field %s = %r of entry %r is printed verbatim by the template but missing from %r' % (f, val, g[0], plain))
+                continue
+            dec = decode(val)
+            want = _norm(_strip_braces(dec))
+            if want.strip() and want not in low:
+                fails.append('field_coverage: field %s = %r (decoded %r) of entry %r is printed by the template but missing from %r' % (f, val, dec, g[0], plain))
+            for m in re.finditer(r'\{([^{}]+)\}', dec):
+                if m.group(1) not in plain:
+                    fails.append('protected_case: %r of the field %s of %r does not keep its case in %r' % (m.group(1), f, g[0], plain))
+            if fn == 'dashify':
+                if atoms is None:
+                    atoms = [(a[0], a[1].lower()) if a[0] == 'c' else a for a in _atoms(g[2])]
+                need = [(a[0], a[1].lower()) if a[0] == 'c' else a for a in _dash_atoms(dec)]
+                if not _contains(atoms, need):
+                    fails.append('dash: field %s = %r of entry %r: every run of hyphens outside braces becomes one en dash (%r), the text is %r' % (
+                        f, val, g[0], ''.join('–' if a[0] == 'y' else a[1] for a in need), plain))
+        for role in roles:
+            for p in persons_of(role) or []:
+                for w in p[2] + p[3] + p[4]:
+                    if _norm(_word_text(w)) not in low:
+                        fails.append('name_coverage: the %s %r of entry %r has the von / last / lineage word %r, which is missing from %r' % (role, p, g[0], w, plain))
+                for w in p[0] + p[1]:
+                    shown = _abbr_word(w) if cfg['abbr'] else _word_text(w)
+                    if _norm(shown) not in low:
+                        fails.append('name_coverage: the %s %r of entry %r has the first name %r, to be shown as %r (abbreviate_names=%r), which is missing from %r' % (
+                            role, p, g[0], w, shown, cfg['abbr'], plain))
+                want = _norm(_person_text(p, cfg))
+                if want not in low:
+                    fails.append('name_style: the %s %r of entry %r reads %r in the configured name style %s (abbreviate_names=%r), which is missing from %r' % (
+                        role, p, g[0], _person_text(p, cfg), cfg['names'], cfg['abbr'], plain))
     return fails
 
 
@@ -481,23 +780,64 @@ def c01_norm(s):
 
 
 KNOWN_MATCHERS = {
-    'C07-alpha-suffix-collision': lambda case, io, f: f.startswith('labels: alpha') and f.endswith('[suffixed label equals another label]'),
-    'C07-blank-field-in-unterminated': lambda case, io, f: f.startswith('terminated: entry ') and f.rstrip("'").endswith(' In') and _has_blank_field(case, f),
+    'C07-alpha-suffix-collision': lambda case, io, f: f.startswith('labels: alpha labels are not pairwise distinct') and f.endswith('[suffixed label equals another label]'),
+    'C07-blank-field-in-unterminated': lambda case, io, f: f.startswith('terminated: entry ') and f.rstrip("'").endswith(' In') and _blank_after_in(case, f),
 }
 
 
-def _has_blank_field(case, f):
+def _blank_after_in(case, f):
+    """exactly the recorded class: the entry's template has a words['In', ...] node, everything the template prints after the word 'In'
+    is empty, and at least one field read there is present with a blank value (an absent field would have been reported or skipped)"""
     m = re.match(r"terminated: entry '([^']*)'", f)
-    for e in case['entries']:
-        if m and e['key'] == m.group(1):
-            return any(not v.replace('{', '').replace('}', '').strip() for _n, v in e['fields'])
-    return False
+    if not m:
+        return False
+    req = to_request(case)
+    by_key = {e['key'].lower(): e for e in req['entries']}
+    e = by_key.get(m.group(1).lower())
+    t = next((it['template'] for it in req['items'] if it['key'].lower() == m.group(1).lower()), None)
+    if e is None or t is None or t['t'] != 'join':
+        return False
+
+    def field_value(name):
+        cur, seen = e, set()
+        while cur is not None and cur['key'].lower() not in seen:
+            seen.add(cur['key'].lower())
+            fs = {k.lower(): v for k, v in cur['fields']}
+            if name.lower() in fs:
+                return fs[name.lower()]
+            cur = by_key.get(fs['crossref'].lower()) if 'crossref' in fs else None
+        return None
+
+    def persons_of(role):
+        return next((ps for r, ps in e['persons'] if r.lower() == role.lower()), None)
+
+    def fields_in(x):
+        out = [x['name']] if x['t'] == 'field' else []
+        for c in x.get('c', []):
+            out += fields_in(c)
+        return out
+    kids = t['c']
+    idx = next((i for i, c in enumerate(kids) if c['t'] == 'join' and c['c'] and c['c'][0] == {'t': 'lit', 'r': 'In'}), None)
+    if idx is None:
+        return False
+    tail = kids[idx]['c'][1:] + kids[idx + 1:]
+    try:
+        if any(_walk(c, field_value, persons_of)[2] for c in tail):
+            return False
+    except _Missing:
+        return False
+    return any(field_value(n) is not None and _text_len(field_value(n), False) == 0 for c in tail for n in fields_in(c))
 
 
 def buckets(case, io):
-    b = [case['style'], 'sort:%s' % case.get('sorting_style'), 'label:%s' % case.get('label_style')]
+    cfg = configured(case)
+    b = [case['style'], 'sort:%s' % cfg['sorting'], 'label:%s' % cfg['labels'], 'names:%s%s' % (cfg['names'], '+abbr' if cfg['abbr'] else '')]
     if 'error' in io:
         b.append('error:' + io['error'][0])
+    if any(ord(c) > 127 for e in case['entries'] for _k, v in e['fields'] for c in v):
+        b.append('non-ascii')
+    if any('\\' in v or '--' in v or '~' in v for e in case['entries'] for _k, v in e['fields']):
+        b.append('tex')
     return b
 
 
@@ -505,8 +845,57 @@ def nontrivial(case, io):
     return len(io.get('entries') or []) >= 2
 
 
+_ROLES = ('author', 'editor')
+
+
+def _balanced(v):
+    d = 0
+    for ch in v:
+        d += (ch == '{') - (ch == '}')
+        if d < 0:
+            return False
+    return d == 0
+
+
 def valid_case(case):
-    return False
+    """shape of a case (used by the shrinker): known style / configuration names, distinct non-empty keys, known field names,
+    brace-balanced values without the characters that end a BibTeX value, person fields that still hold a name"""
+    try:
+        if case.get('op') != 'pystyle' or case['style'] not in STYLES or not isinstance(case['min_crossrefs'], int) or case['min_crossrefs'] < 1:
+            return False
+        if case.get('label_style', 'number') not in ('number', 'alpha') or case.get('sorting_style', 'none') not in ('none', 'author_year_title'):
+            return False
+        if case.get('name_style', 'plain') not in ('plain', 'lastfirst') or not isinstance(case.get('abbreviate_names', False), bool):
+            return False
+        if 'expect_ends' in case:
+            return False
+        keys = [e['key'].lower() for e in case['entries']]
+        if len(set(keys)) != len(keys) or not all(re.fullmatch(r'[A-Za-z0-9]+', k) for k in keys):
+            return False
+        if not all(isinstance(c, str) and re.fullmatch(r'[A-Za-z0-9*]+', c) for c in case['citations']):
+            return False
+        for e in case['entries']:
+            if e['type'] not in TYPES:
+                return False
+            names = [f[0].lower() for f in e['fields']]
+            if len(set(names)) != len(names):
+                return False
+            for n, v in e['fields']:
+                if n not in FIELDS and n not in _ROLES and n != 'crossref':
+                    return False
+                if not _balanced(v) or '@' in v or '"' in v or v != v.strip() or '  ' in v or '\\{' in v or '\\}' in v or v.endswith('\\'):
+                    return False
+                if n in _ROLES:
+                    parts = re.split(r' and ', v)
+                    if not all(p.strip() and not re.fullmatch(r'[\s,~{}\-]*', p) and p.count(',') <= 2 and not p.strip().startswith(',') for p in parts):
+                        return False
+                    if re.search(r'\band$|^and\b', v.strip()):
+                        return False
+                if n == 'crossref' and v.lower() not in keys:
+                    return False
+        return True
+    except Exception:
+        return False
 
 
 def corpus():
@@ -538,6 +927,18 @@ def gen_entry(rng, key, keys, blanks=False):
     return {'type': t, 'key': key, 'fields': fields}
 
 
+def _configure(rng, case, p=0.4):
+    if rng.random() < p:
+        case['label_style'] = rng.choice(['number', 'alpha'])
+    if rng.random() < p:
+        case['sorting_style'] = rng.choice(['none', 'author_year_title'])
+    if rng.random() < p:
+        case['name_style'] = rng.choice(['plain', 'lastfirst'])
+    if rng.random() < p:
+        case['abbreviate_names'] = True
+    return case
+
+
 def gen_case(rng):
     n = rng.randint(1, 6)
     keys = ['k%d' % i for i in range(n)]
@@ -553,22 +954,14 @@ def gen_case(rng):
         if rng.random() < 0.1:
             cites.append('nosuch')
     case = {'op': 'pystyle', 'entries': entries, 'citations': cites, 'min_crossrefs': rng.choice([1, 2, 2]), 'style': rng.choice(STYLES)}
-    if rng.random() < 0.4:
-        case['label_style'] = rng.choice(['number', 'alpha'])
-    if rng.random() < 0.4:
-        case['sorting_style'] = rng.choice(['none', 'author_year_title'])
-    if rng.random() < 0.4:
-        case['name_style'] = rng.choice(['plain', 'lastfirst'])
-    if rng.random() < 0.4:
-        case['abbreviate_names'] = True
-    return case
+    return _configure(rng, case)
 
 
 def gen_ties(rng):
     """Databases whose entries tie on the (author, year, title) sorting key, cited in an order unrelated to the order of their keys."""
     n = rng.randint(2, 6)
     keys = rng.sample(['zeta', 'mid', 'alpha', 'Beta', 'k1', 'K0', 'omega', 'a'], n)
-    authors = rng.sample(['John Smith', 'Ann Lee', 'john smith', 'Jim Smirnov', 'Ann Smiley'], rng.randint(1, 3))
+    authors = rng.sample(['John Smith', 'Ann Lee', 'john smith', 'Jim Smirnov', 'Ann Smiley', 'Éric Smith', 'éric smith', 'Ann Ångström'], rng.randint(1, 3))
     entries = []
     for k in keys:
         fs = [['title', rng.choice(['Same title', 'Same title', 'Other'])], ['year', rng.choice(['2001', '2001', '1999'])]]
@@ -589,16 +982,70 @@ def gen_ties(rng):
     return case
 
 
+def gen_names(rng):
+    """Entries that differ in their persons only: every name form (von, lineage, hyphens, protected words, TeX accents, letters outside
+    ASCII, 'others'), one to six persons per role, all name styles with and without abbreviation; alpha labels and sorting depend on them."""
+    n = rng.randint(1, 4)
+    entries = []
+    for i in range(n):
+        fs = [['title', 'T%d' % i], ['year', rng.choice(['1999', '2001'])], ['publisher', 'P']]
+        for role in ('author', 'editor'):
+            if rng.random() < (0.9 if role == 'author' else 0.5):
+                k = rng.choice([1, 1, 2, 3, 4, 5, 6])
+                ps = [rng.choice(PERSONS) for _ in range(k)]
+                if k > 1 and rng.random() < 0.2:
+                    ps[-1] = 'others'
+                fs.append([role, ' and '.join(ps)])
+        entries.append({'type': rng.choice(['book', 'misc', 'article', 'proceedings', 'manual', 'inbook']), 'key': 'n%d' % i,
+                        'fields': fs + [['journal', 'J'], ['chapter', '2'], ['organization', 'The Örg']]})
+    case = {'op': 'pystyle', 'entries': entries, 'citations': ['*'], 'min_crossrefs': 2, 'style': rng.choice(STYLES)}
+    return _configure(rng, case, 0.6)
+
+
+def config_matrix():
+    """One database (ties, a lineage part, a von part, first names to abbreviate, letters outside ASCII; the citation order is not the
+    sorted order) under EVERY combination style x label_style x sorting_style x name_style x abbreviate_names (absent = the default)."""
+    entries = [
+        {'type': 'article', 'key': 'zz', 'fields': [['author', 'Ludwig van Beethoven, Jr and Éric Ångström'], ['title', 'Second'], ['journal', 'J'], ['year', '2001']]},
+        {'type': 'book', 'key': 'mm', 'fields': [['editor', 'Smith, Jr., John Quincy'], ['title', 'First'], ['publisher', 'P'], ['year', '1999']]},
+        {'type': 'misc', 'key': 'aa', 'fields': [['author', 'Ann-Marie Zeta and others'], ['title', 'Third'], ['year', '1999']]},
+        {'type': 'misc', 'key': 'bb', 'fields': [['author', 'Ann-Marie Zeta and others'], ['title', 'Third'], ['year', '1999']]},
+    ]
+    out = []
+    for st in STYLES:
+        for lab in (None, 'number', 'alpha'):
+            for srt in (None, 'none', 'author_year_title'):
+                for nm in (None, 'plain', 'lastfirst'):
+                    for ab in (None, True, False):
+                        case = {'op': 'pystyle', 'entries': entries, 'citations': ['zz', 'bb', 'mm', 'aa'], 'min_crossrefs': 2, 'style': st}
+                        for k, v in (('label_style', lab), ('sorting_style', srt), ('name_style', nm), ('abbreviate_names', ab)):
+                            if v is not None:
+                                case[k] = v
+                        out.append(case)
+    return out
+
+
 def gen_cases(tier, rng, info):
     cases = []
-    for _ in range(150 if tier == 'quick' else 5000):
+    for _ in range(150 if tier == 'quick' else 2000):
         cases.append(gen_ties(rng))
+    cases += config_matrix()
     # every type with all fields and with the minimal required fields, every style
     for t in TYPES:
         full = [[f, VALUES.get(f, GENERIC)[0]] for f in FIELDS] + [['author', 'Donald E. Knuth and Leslie Lamport'], ['editor', 'Ed Itor']]
         for st in STYLES:
             cases.append({'op': 'pystyle', 'entries': [{'type': t, 'key': 'full', 'fields': full}], 'citations': ['full'], 'min_crossrefs': 2, 'style': st})
         cases.append({'op': 'pystyle', 'entries': [{'type': t, 'key': 'empty', 'fields': []}], 'citations': ['empty'], 'min_crossrefs': 2, 'style': 'unsrt'})
+        # every value of the pools once (TeX, dashes, letters outside ASCII) in an entry of this type with all fields
+        for i in range(max(len(v) for v in list(VALUES.values()) + [GENERIC])):
+            fs = [[f, VALUES.get(f, GENERIC)[i % len(VALUES.get(f, GENERIC))]] for f in FIELDS]
+            fs += [['author', PERSONS[(2 * i) % len(PERSONS)] + ' and ' + PERSONS[(2 * i + 1) % len(PERSONS)]], ['editor', PERSONS[(i + 7) % len(PERSONS)]]]
+            case = {'op': 'pystyle', 'entries': [{'type': t, 'key': 'v%d' % i, 'fields': fs}], 'citations': ['*'], 'min_crossrefs': 2, 'style': STYLES[i % 4]}
+            if i % 3 == 1:
+                case['name_style'] = 'lastfirst'
+            if i % 2 == 1:
+                case['abbreviate_names'] = True
+            cases.append(case)
         # every field present but blank; the same with a title / with title and names
         for keep in ((), ('title',), ('title', 'author', 'editor')):
             fs = [[f, VALUES.get(f, GENERIC)[0] if f in keep else ''] for f in FIELDS]
@@ -613,29 +1060,43 @@ def gen_cases(tier, rng, info):
             fs = [['title', 'T'], ['author', 'A B']] + [[f, ''] for f, m in zip(core, mask) if m]
             cases.append({'op': 'pystyle', 'entries': [{'type': t, 'key': 'blank', 'fields': fs}], 'citations': ['blank'], 'min_crossrefs': 2, 'style': 'unsrt'})
     info['exhaustive'] = False
-    info['scope'] = '%d systematic cases (17 types x full / empty entry x styles) + seeded random databases' % len(cases)
-    for _ in range(1200 if tier == 'quick' else 25000):
+    info['scope'] = ('%d systematic cases (every configuration combination on one database; 17 types x full / empty / blank-field entries x styles; '
+                     'every value of the pools in every type) + seeded random databases' % len(cases))
+    for _ in range(600 if tier == 'quick' else 3000):
+        cases.append(gen_names(rng))
+    for _ in range(1000 if tier == 'quick' else 12000):
         cases.append(gen_case(rng))
+    _PENDING[:] = cases
     return cases
 
 
 LEVEL_TEXT = ('Machine-checked proofs (Lean 4) over an executable model of the Python formatting engine: the template evaluator '
               '(join/words/toplevel, together, sentence, field, names, optional, first_of, tag, href, name_part over the rich-text model of C08), '
-              'Text.from_latex, the sorting styles none / author_year_title, the label styles number / alpha and BaseStyle.format_bibliography = '
-              'resolve (C05) -> drop missing -> sort -> label -> template.  Proved for ALL databases, citation lists, templates and name templates: '
-              'one formatted entry per resolved citation, citation order resp. stable sort by the key triple (a strict total order), number labels '
-              '1..n distinct, alpha labels distinct under an explicit decidable proviso, FieldIsMissing characterised exactly (which node, which entry), '
-              'terminating punctuation for sentence-built templates, protected text untouched, every printed field value occurs in the output.  The '
-              'model is tied to the code by a correspondence check over all 17 entry types x 4 styles x label / sorting / name styles in which the '
-              'templates of the live style objects are serialised and evaluated by the Lean evaluator.')
+              'Text.from_latex (the codec result is data), BaseText.abbreviate, the sorting styles none / author_year_title (str.lower of the '
+              'interpreter), the label styles number / alpha (NFD accent stripping and str.isalpha from regenerated tables) and '
+              'BaseStyle.format_bibliography = resolve (C05) -> drop missing -> sort -> label -> template.  Proved for ALL databases, citation '
+              'lists, templates and name templates: one formatted entry per resolved citation, citation order resp. stable sort by the key triple '
+              '(a strict total order), number labels 1..n distinct, alpha labels distinct under an explicit decidable proviso, FieldIsMissing '
+              'characterised exactly (which node, which entry), terminating punctuation for sentence-built templates, protected text untouched, '
+              'every printed field value and every name word (or its abbreviation: first letter + period, characterised) occurs in the output.  '
+              'The model is tied to the code by a correspondence check over all 17 entry types x 4 styles x every label / sorting / name style / '
+              'abbreviation combination in which the templates of the live style objects are serialised and evaluated by the Lean evaluator and '
+              'the result is compared as rich text and as rendered by each of the four backends; the configuration the oracle and the model use '
+              'is read from the case, and every case also goes through PybtexEngine().format_from_string.')
 LEVEL_NOTE = ('Trusted: Lean kernel; axioms propext/Classical.choice/Quot.sound only; the hand-written model corresponds to the Python code only as '
               'far as the differential check explores; the templates get_<type>_template(entry) and the name-style templates are INPUTS of the '
-              'evaluator (the theorems quantify over all templates; that the shipped templates satisfy endsInSentence is not part of the proof: '
-              'about 89% of the sampled live templates do, the others end in words["In", sentence[...]] whose termination depends on the last '
-              'sentence being non-empty); latexcodec decode = identity; ASCII case mapping.  The model follows the code with proposed fixes C05-1 / '
-              'C14-1 / C14-2 / C08-1..5 applied.  Alpha labels are NOT always distinct: C07_alpha_labels_partial + C07_alpha_labels_neg, known '
-              'finding C07-alpha-suffix-collision (a unique base label equal to a repeated one plus its suffix letter).  Field coverage is stated '
-              'on str(text) for the field nodes on the successful path (printed); the URL of an href (link target, not text) and abbreviated name '
-              'parts are excluded; a names node is required of the entry itself (no crossref inheritance) by design of the code.  Not proved: '
-              'that evalFuel = 1000 suffices for every template (C07_fuel_irrelevant shows fuel never changes a result; the model reports '
-              'out-of-fuel as its own error, never observed), the alpha base labels format_label themselves (only the suffix loop), backends (C09).')
+              'evaluator (the theorems quantify over all templates).  That the shipped templates satisfy endsInSentence is not part of the proof '
+              'but a MONITORED invariant: the driver evaluates the condition on every serialised live template and the check compares it with the '
+              'recorded expectation (13 entry types always, book / inbook when the entry has an editor; incollection / inproceedings end in '
+              'words["In", sentence[...]] and never do: finding C07-blank-field-in-unterminated); that the shipped name styles print every part of '
+              'a person is checked by the oracle clauses name_coverage / name_style on every case.  latexcodec decode is data computed by the real '
+              'codec; case mapping inside rich text is the ASCII one of the C08 model (see ASSUMPTIONS for the generated region).  The model follows '
+              'the code with proposed fixes C05-1 / C14-1 / C14-2 / C08-1..5 applied.  Alpha labels are NOT always distinct: '
+              'C07_alpha_labels_partial + C07_alpha_labels_neg, known finding C07-alpha-suffix-collision (a unique base label equal to a repeated '
+              'one plus its suffix letter); the alpha base labels (format_label) are modelled and compared, the oracle takes them as the reference '
+              'for "BibTeX alpha labels"; theorems about them: C07_alpha_base_label, C07_unicode_keys (shape, not agreement with alpha.bst).  Field coverage is stated on str(text) for the field nodes '
+              'on the successful path (printed); the URL of an href (link target, not text) is excluded; a names node is required of the entry '
+              'itself (no crossref inheritance) by design of the code.  Not proved: that evalFuel = 1000 suffices for every template '
+              '(C07_fuel_irrelevant shows fuel never changes a result; the model reports out-of-fuel as its own error, never observed); the '
+              'backends (C09; here compared per entry through Model/Backends.lean); PybtexEngine.format_from_files (second implementation path, '
+              'oracle clause engine_path); format_bibliography(citations=None) is not exercised.')
